@@ -8,6 +8,7 @@ from ..model import Program, AnalysisError, own_nodes, norm, names_in, FuncInfo
 from ..cfg import cfg_of
 from ..guards import Env, walk, collect_atoms, mentions
 from ..report import Report
+from ..normalize import alias_view
 from ..util import callee_last, parents, enclosing_stmt
 
 VT = 'fggs.viterbi'
@@ -221,6 +222,15 @@ def asst_coverage(rep: Report, prog: Program) -> None:
             be = [b for b, l in cfg.succ[hdr] if l == 'iter'][0]
             stores = {n for n in cfg.loop_body[hdr] if cfg.nodes[n].kind == 'stmt' and isinstance(cfg.nodes[n].stmt, ast.Assign)
                       and any(isinstance(t, ast.Subscript) and norm(t.value) == A and norm(t.slice) == v for t in cfg.nodes[n].stmt.targets)}
+            # A.setdefault(v, c): the same store, taken only when v has no value yet
+            for n in cfg.loop_body[hdr]:
+                st_ = cfg.nodes[n].stmt
+                if cfg.nodes[n].kind == 'stmt' and isinstance(st_, ast.Expr) and isinstance(st_.value, ast.Call) and callee_last(st_.value) == 'setdefault' \
+                        and norm(st_.value.func.value) == A and len(st_.value.args) == 2 and norm(st_.value.args[0]) == v:
+                    stores.add(n)
+                    dflt = st_.value.args[1]
+                    rep.ob(rule, f.fq(), f"{norm(st_)}: the value given to a node without edges is in every domain", f.loc(st_), isinstance(dflt, ast.Constant) and dflt.value == 0,
+                           'index 0 exists in every non-empty domain' if isinstance(dflt, ast.Constant) and dflt.value == 0 else f"`{norm(dflt)}` need not be an index of the node's domain")
             r = walk(cfg, be, Env(atoms={f"{v} in {A}": False}), stop=lambda n: n in stores, loop_header_stop=hdr, unknown='both')
             if stores and hdr not in r and cfg.exit not in r:
                 ok = True; detail = f"every node of {R}.rhs.nodes() without a value receives one ({cfg.describe(sorted(stores)[0])})"
@@ -238,7 +248,7 @@ def asst_coverage(rep: Report, prog: Program) -> None:
 # ------------------------------------------------------------------------------------------ D3
 def pointer_order(rep: Report, prog: Program) -> None:
     rule = 'C04-D3 pointer-order'
-    prod = prog.func(VT, 'sum_product_edges')
+    prod = alias_view(prog.func(VT, 'sum_product_edges'))       # `ext = rule.rhs.ext` read through
     pcfg = cfg_of(prod)
     rparam = [p for p in prod.positional_params() if p == 'rule']
     R = rparam[0] if rparam else prod.positional_params()[1]
